@@ -744,9 +744,8 @@ struct DoubleSize<Number_T, 64U> {
         // -----------------------
         if (original_dividend_high > dividend_high) {
             // Overflow
-            constexpr Number_T overflow_dividend = (Number_T{1} << (width_ - 1U));
-
-            dividend_high += ((overflow_dividend % (divisor >> 1U)) << 1U);
+            // 2^width mod divisor; the sum can only wrap when divisor > 2^(width-1).
+            dividend_high += (Number_T{0} - divisor);
             ++dividend_low;
         }
 
